@@ -61,6 +61,9 @@ type Decoder struct {
 	// consumed: classes and container types the type map does not know are
 	// then read generically instead of being an error
 	skipping int
+
+	// generic maps converted for typed map fields that refer to them
+	mapConv map[_mapConversion]reflect.Value
 }
 
 //NewDecoder new
@@ -84,6 +87,7 @@ func (d *Decoder) Reset(r ByteRuneReader) {
 	d.clsDefList = make([]ClassDef, 0, 11)
 	d.refList = make([]reflect.Value, 0, 11)
 	d.skipping = 0
+	d.mapConv = nil
 }
 
 //RegisterType register key/value type
